@@ -242,11 +242,12 @@ impl<'a> CompilerState<'a> {
     pub fn syntax_error(&self, message: &str, loc: usize) -> Error {
         let mut line_number: usize = 0;
         let mut char_number = 0;
-        for c in self.preprocessed_utf8.chars() {
+        // loc is a byte offset
+        for c in self.preprocessed_utf8.bytes() {
             if char_number == loc {
                 break;
             }
-            if c == '\n' {
+            if c == b'\n' {
                 line_number += 1;
             }
             char_number += 1;
@@ -266,11 +267,12 @@ impl<'a> CompilerState<'a> {
     pub fn compiler_error(&self, message: &str, loc: usize) -> Error {
         let mut line_number: usize = 0;
         let mut char_number = 0;
-        for c in self.preprocessed_utf8.chars() {
+        // loc is a byte offset
+        for c in self.preprocessed_utf8.bytes() {
             if char_number == loc {
                 break;
             }
-            if c == '\n' {
+            if c == b'\n' {
                 line_number += 1;
             }
             char_number += 1;
@@ -290,11 +292,12 @@ impl<'a> CompilerState<'a> {
     pub fn warning(&self, msg: &str, loc: usize) -> () {
         let mut line_number: usize = 0;
         let mut char_number = 0;
-        for c in self.preprocessed_utf8.chars() {
+        // loc is a byte offset
+        for c in self.preprocessed_utf8.bytes() {
             if char_number == loc {
                 break;
             }
-            if c == '\n' {
+            if c == b'\n' {
                 line_number += 1;
             }
             char_number += 1;
